@@ -180,5 +180,7 @@ def verify_all(ctx, repo, prop):
     dsl.verify(ctx, repo, dsl.Registry(), prop, [TN + ".add_data_point", TN + ".remove_data_point"], h_node_add_remove, expect_covers=NODE_COVERS)
     dsl.verify(ctx, repo, dsl.Registry(), prop, [TN + ".__init__", TN + ".__copy__"], h_node_init_copy, expect_covers=["init-copy"])
     dsl.verify(ctx, repo, dsl.Registry(), prop, [TR + "._internal_add_data_point_to_node", TR + ".remove_data_point_from_node"], h_tree_pairing, expect_covers=PAIR_COVERS)
-    ctx.trust("graph level of Tree (rustworkx): unique parents, name <-> index maps, get_parent, _update_path_to_root walking the unique root path bottom-up, grafting / pruning - "
-              "not under contract (bounded edit-grammar enumeration)", "np.full / ndarray.copy / in-place += and -= (Arr2 model)")
+    from contracts import c06_graph as G
+
+    G.verify_all(ctx, repo, prop)
+    ctx.trust("np.full / ndarray.copy / in-place += and -= (Arr2 model)")
